@@ -447,9 +447,10 @@ def aggregate_replay(keys, estimator="nonparametric", alpha=0.9):
         def unit(i, st, cty, cls, dist, res, rep, pred=None, lo=None, up=None, cat="expected"):
             return {"postal_code": st, "county_fips": lab[cty], "county_classification": cls, "district": lab[dist], "geographic_unit_fips": f"u{i}", f"results_{E}": res, "reporting": rep, f"pred_{E}": res if pred is None else pred, lo_s: res if lo is None else lo, up_s: res if up is None else up, "unit_category": cat}
 
-        rep = pd.DataFrame([unit(1, "AA", "c1", "urban", "d1", 100, 1), unit(2, "AA", "c1", "rural", "d1", 50, 1), unit(3, "BB", "c3", "urban", "d2", 70, 1)])
-        non = pd.DataFrame([unit(4, "AA", "c1", "urban", "d1", 10, 0, 40, 35, 60), unit(5, "AA", "c2", "rural", "d2", 0, 0, 90, 80, 120), unit(6, "BB", "c4", "rural", "d3", 5, 0, 30, 20, 44)])
-        third = pd.DataFrame([unit(7, "AA", "c1", np.nan, "d1", 7, 0, cat="unexpected"), unit(8, "BB", "c9", np.nan, "d9", 3, 0, cat="unexpected"), unit(9, "BB", "c3", "urban", "d2", 11, 0, cat="non-modeled: blocklisted")])
+        # (rows listed so that groups FIRST APPEAR in an order that is not their sorted key order)
+        rep = pd.DataFrame([unit(3, "BB", "c3", "urban", "d2", 70, 1), unit(2, "AA", "c1", "rural", "d1", 50, 1), unit(1, "AA", "c1", "urban", "d1", 100, 1)])
+        non = pd.DataFrame([unit(6, "BB", "c4", "rural", "d3", 5, 0, 30, 20, 44), unit(5, "AA", "c2", "rural", "d2", 0, 0, 90, 80, 120), unit(4, "AA", "c1", "urban", "d1", 10, 0, 40, 35, 60)])
+        third = pd.DataFrame([unit(9, "BB", "c3", "urban", "d2", 11, 0, cat="non-modeled: blocklisted"), unit(8, "BB", "c9", np.nan, "d9", 3, 0, cat="unexpected"), unit(7, "AA", "c1", np.nan, "d1", 7, 0, cat="unexpected")])
         m = NonparametricElectionModel({})
         try:
             est = m.get_aggregate_predictions(rep, non, third, list(keys), E)
@@ -665,7 +666,8 @@ def gaussian_scene(layout, nonrep_groups, big_partial, rng, key="county_fips"):
             last = float(rng.integers(300, 3000))
             partial = np.round(last * (2.5 if big_partial and i == 0 else 0.2))
             nr.append({"postal_code": st, key: sub, "geographic_unit_fips": f"n_{st}{sub}_{i}", LAST: last, RES: partial, "reporting": 0})
-    non = pd.DataFrame(nr, columns=["postal_code", key, "geographic_unit_fips", LAST, RES, "reporting"])
+    # (the outstanding units are listed with the LAST group first: group order of first appearance != sorted key order)
+    non = pd.DataFrame(nr[::-1], columns=["postal_code", key, "geographic_unit_fips", LAST, RES, "reporting"])
     unx = pd.DataFrame({"postal_code": ["AA"], key: ["x9"], "geographic_unit_fips": ["x9_1"], RES: [17.0], "reporting": [0]})
     return conf, rep, non, unx
 
@@ -1821,4 +1823,132 @@ def weighted_median_order_replay():
     except Exception as e:  # noqa
         out["exc"] = f"{type(e).__name__}: {e}"
         out["ok"] = False
+    return out
+
+
+def failing_solve_tables_replay():
+    """REAL client (nonparametric, two vote-count estimands, two levels): ONE fault (SolverError, then UserWarning) is injected
+    into the k-th per-quantile solve of the installed solver that runs with normalised weights, for every k of the run; the
+    run must complete, the solve right after the failed one must be for the SAME quantile with un-normalised weights, and
+    the tables must equal those of the fault-free run (unregularised fits: same optimum; whole-number columns within 1)"""
+    import cvxpy
+    from elexsolver.QuantileRegressionSolver import QuantileRegressionSolver
+
+    base = synthetic(70, seed=6)
+    cur = feed(base, [100] * 45 + [30] * 25)
+    real__fit = QuantileRegressionSolver._fit
+    out = {"exc": None, "problems": [], "positions": 0}
+
+    def run(fail_at, kind):
+        log = []
+        state = {"n": 0, "failed": False}
+
+        def _fit(self, x, y, weights, tau):
+            normalised = abs(float(np.sum(weights)) - 1.0) < 1e-9
+            log.append((round(float(tau), 6), normalised))
+            if normalised and not state["failed"]:
+                k = state["n"]
+                state["n"] += 1
+                if k == fail_at:
+                    state["failed"] = True
+                    if kind == "SolverError":
+                        raise cvxpy.error.SolverError("injected")
+                    raise UserWarning("Solution may be inaccurate. (injected)")
+            return real__fit(self, x, y, weights, tau)
+
+        QuantileRegressionSolver._fit = _fit
+        try:
+            with warnings.catch_warnings():
+                warnings.simplefilter("ignore")
+                _, r = run_client(cur, base, estimands=("turnout", "dem"), pi_method="nonparametric", prediction_intervals=(0.7, 0.9), aggregates=("postal_code", "unit"))
+        finally:
+            QuantileRegressionSolver._fit = real__fit
+        return r, log, state
+
+    try:
+        ref, log0, _ = run(-1, "SolverError")
+        n_solves = len(log0)
+        out["positions"] = n_solves
+        for kind in ("SolverError", "UserWarning"):
+            for k in range(n_solves):
+                try:
+                    r, log, st = run(k, kind)
+                except Exception as e:  # noqa
+                    out["problems"].append({"fault_at": k, "kind": kind, "what": f"the run did not complete: {type(e).__name__}: {e}"[:200]})
+                    continue
+                pos = next(i for i, (_t, nrm) in enumerate(log) if nrm and sum(1 for (_t2, n2) in log[: i + 1] if n2) == k + 1)
+                if pos + 1 >= len(log) or log[pos + 1][0] != log[pos][0] or log[pos + 1][1]:
+                    out["problems"].append({"fault_at": k, "kind": kind, "what": "the solve after the failed one is not the same quantile without weight normalisation", "failed": log[pos], "next": log[pos + 1] if pos + 1 < len(log) else None})
+                    continue
+                for tab in ref:
+                    a, b = ref[tab], r[tab]
+                    for col in a.columns:
+                        if a[col].dtype.kind in "fiu":
+                            d = np.abs(np.asarray(a[col], dtype=float) - np.asarray(b[col], dtype=float))
+                            if len(d) and np.nanmax(d) > 1.0:
+                                out["problems"].append({"fault_at": k, "kind": kind, "table": tab, "column": col, "fault_free": float(np.asarray(a[col], dtype=float)[int(np.nanargmax(d))]), "with_fault": float(np.asarray(b[col], dtype=float)[int(np.nanargmax(d))])})
+                                break
+                    else:
+                        continue
+                    break
+        out["problems"] = out["problems"][:4]
+        out["ok"] = not out["problems"] and n_solves >= 6
+    except Exception as e:  # noqa
+        import traceback
+
+        out["exc"] = f"{type(e).__name__}: {e}"
+        out["trace"] = traceback.format_exc()[-500:]
+        out["ok"] = False
+    return out
+
+
+def inaccurate_solution_replay():
+    """REAL fit_model on the regularised (cvxpy) path with the solver's FIRST solve reporting status optimal_inaccurate
+    (injected where cvxpy turns solver output into a status; cvxpy itself then issues its 'Solution may be inaccurate'
+    warning through its own code path): the fit must be attempted a second time without weight normalisation"""
+    import cvxpy.settings as cs
+    from cvxpy.reductions.solvers.solving_chain import SolvingChain
+    from elexsolver.QuantileRegressionSolver import QuantileRegressionSolver
+
+    import elexmodel.models.ConformalElectionModel as CM
+    from elexmodel.models.NonparametricElectionModel import NonparametricElectionModel
+
+    real_invert, real_fit = SolvingChain.invert, QuantileRegressionSolver.fit
+    state, log = {"n": 0}, []
+
+    def invert(self, solution, inverse_data):
+        sol = real_invert(self, solution, inverse_data)
+        state["n"] += 1
+        if state["n"] == 1:
+            sol.status = cs.OPTIMAL_INACCURATE
+        return sol
+
+    def fit(self, *a, **k):
+        log.append(bool(k.get("normalize_weights", True)))
+        return real_fit(self, *a, **k)
+
+    out = {"exc": None}
+    SolvingChain.invert, QuantileRegressionSolver.fit = invert, fit
+    try:
+        with warnings.catch_warnings():
+            warnings.resetwarnings()
+            # install the module's OWN top-level warning filter statements (from its source text) in this fresh filter list
+            import ast as _ast
+            import inspect as _inspect
+
+            for node in _ast.parse(_inspect.getsource(CM)).body:
+                if isinstance(node, _ast.Expr) and isinstance(node.value, _ast.Call) and _ast.unparse(node.value.func) == "warnings.filterwarnings":
+                    exec(compile(_ast.Module([node], []), "<the module's filter>", "exec"), {"warnings": warnings})
+            m = NonparametricElectionModel({"lambda_": 1.0})
+            rng = np.random.default_rng(0)
+            X = pd.DataFrame({"intercept": np.ones(20), "f": rng.normal(size=20)})
+            y, w = pd.Series(rng.normal(size=20)), pd.Series(rng.uniform(1, 3, size=20))
+            m.fit_model(QuantileRegressionSolver(), X, y, 0.5, w, True)
+    except Exception as e:  # noqa
+        out["exc"] = f"{type(e).__name__}: {e}"
+    finally:
+        SolvingChain.invert, QuantileRegressionSolver.fit = real_invert, real_fit
+    out["attempts_normalize_weights"] = log
+    out["solves"] = state["n"]
+    out["ok"] = out["exc"] is None and log == [True, False]
     return out
